@@ -9,3 +9,14 @@ def recursive(params, returns):
         f._pyvc_recursive = (list(params), returns)
         return f
     return deco
+
+
+def opaque(params, returns, reveal=()):
+    """Mark a (non-recursive) specification function as opaque: an uninterpreted
+    function everywhere except while verifying the functions named in `reveal`,
+    where its definition is unfolded (Dafny's opaque / reveal)."""
+    def deco(f):
+        f._pyvc_recursive = (list(params), returns)
+        f._pyvc_reveal = tuple(reveal)
+        return f
+    return deco
